@@ -195,6 +195,11 @@ func (P *Parser) Error(err error, scanner Scanner) (recovered bool, errorAttrib 
 		errorAttrib.ExpectedTokens = append(errorAttrib.ExpectedTokens, P.tokenMap.TokenString(t))
 	}
 
+	if !P.actTab[P.stack.Top()].canRecover {
+		// The grammar of gocc has no error productions: "error" is an ordinary
+		// keyword here and must not be shifted to resynchronise.
+		return
+	}
 	action, ok := P.actTab[P.stack.Top()].Actions[P.tokenMap.Type("error")]
 	if !ok {
 		return
